@@ -43,3 +43,8 @@ Fixpoint fl_replay (c : fl_cfg) (s : fl_state) (h : list (fl_label * option fl_o
 
 Definition fl_history_ok (c : fl_cfg) (s : fl_state) (h : list (fl_label * option fl_obs)) : bool :=
   match fl_replay c s h 0 with None => true | Some _ => false end.
+
+(* is the recorded history a steady one (guard of C06_not_released_early_steady)? compared with the harness's own
+   classification of what happened *)
+Definition fl_history_steady (c : fl_cfg) (s : fl_state) (h : list (fl_label * option fl_obs)) : bool :=
+  match fl_run_steady c s (map fst h) with Some _ => true | None => false end.
